@@ -437,6 +437,7 @@ def stream_nestings(ctx, impl, sig, oracle, ops, binders, per_pair):
         if c in sig.tycons:
             cand_types += [G.TConst(c, T) for T in base[:2] + [G.TVar("a")]] + [G.TConst(c, G.TConst(c, G.TVar("a")))]
     cand_types += [G.TFun(G.TVar("a"), G.BoolType), G.TFun(G.NatType, G.NatType), G.TFun(G.TVar("a"), G.TVar("b")), G.TFun(G.BoolType, G.BoolType)]
+    cand_types = [T for T in cand_types if sig.type_ok(T)]
     done = 0
     covered = set()
     for (k1, c1, n1) in heads:
